@@ -1240,7 +1240,8 @@ class Index:
                 )
                 sha1_writer.close()
         except:
-            f.close()
+            # do not install a partially written index
+            f.abort()
             raise
 
     def read(self) -> None:
